@@ -447,6 +447,8 @@ FIRST7 = {   # seed -> what the first run said, where it differs from the final 
     "F02-2": "reported, but because the decorator was ignored: the repaired twin would have been reported too",
     "F03-2": "own check stopped (next / generator); reported only by C19",
     "F03-3": "reported, analysis incomplete: NamedTuple(*size, ...)",
+    "F05-2": "reported by C11.R5 because the generator is called from a hook: its twin shares that; the defect itself is now C11.R2i",
+    "F08-2": "reported as 'arguments not forwarded' (passed by position): its twin shares that; the defect itself is 'strike is not self.strike'",
     "F08-3": "MISSED by every check",
     "F09-2": "reported by C19.R1 as 'no single search loop': the form, not the defect",
     "F10-1": "analysis error: anchor BasePrimary.to vanished",
@@ -487,8 +489,8 @@ def round7():
     print(f"### 9.4g written: {len(r_)} seeds, {len(twins)} twins")
 
 
-FIRST7_TEXT = ("23 reported by the check of the property the agent named, for the defect itself; 2 reported for a reason tied to the new form rather than to the "
-               "defect (F02-2, F09-2); 1 only by another property's check while its own stopped (F03-2); 3 stopped their own check with an analysis error "
+FIRST7_TEXT = ("21 reported by the check of the property the agent named, for the defect itself; 4 reported for a reason tied to the new form rather than to the "
+               "defect - their repaired twins would have been reported as well (F02-2, F05-2, F08-2, F09-2); 1 only by another property's check while its own stopped (F03-2); 3 stopped their own check with an analysis error "
                "(F01-2, F01-3, F10-1); **1 missed by every check** (F08-3, the memoised module factory). Besides, F04-2, F05-1 and F09-2 stopped or timed out "
                "unrelated checks. After the work below all 30 are reported by the check of the property the agent named, each for the defect itself.")
 TWINS7_TEXT = ("; at the first run (with the checks as they stood after the work on the 30 defective patches) 23 were silent, 6 raised a false alarm "
